@@ -50,6 +50,13 @@ m("c07-channel-alpha-only", SS, "opt(anychar)(channel_bytes)", "opt(nom::combina
 m("c10-type27-cog-via-tenths", S + "long_range_ais_broadcast.rs", "        _ => Some(data as f32), // Course in degrees (0-359)", "        _ => parse_cog(data * 10),", ["C10", "C11"])
 m("c09-parse-armored-payload", SS, "ais_sentence.message = Some(messages::parse(&unarmored)?)", "{ let _ = &unarmored; ais_sentence.message = Some(messages::parse(&ais_sentence.data)?) }", ["C09"])
 m("c18-alloc-only-no-trim-start", S + "parsers.rs", "    let char_count = size / 6;\n", "    #[cfg(all(feature = \"alloc\", not(feature = \"std\")))]\n    let size = if size > 120 { size - 6 } else { size };\n    let char_count = size / 6;\n", ["C18", "C13"])
+n("n-c04-raim-nom-bool", S + "position_report.rs", "let (data, raim) = map(take_bits(1u8), u8_to_bool)(data)?;", "let (data, raim) = nom::bits::complete::bool(data)?;", ["C04", "C01", "C18"])
+m("c04-raim-nom-bool-inverted", S + "position_report.rs", "let (data, raim) = map(take_bits(1u8), u8_to_bool)(data)?;", "let (data, raim) = map(nom::bits::complete::bool, |b: bool| !b)(data)?;", ["C04"])
+n("n-c16-keep-nom-bool", S + "radio_status.rs", "let (data, keep) = map(take_bits(1u8), u8_to_bool)(data)?;", "let (data, keep) = nom::bits::complete::bool(data)?;", ["C16", "C04", "C01"])
+m("c16-keep-nom-bool-inverted", S + "radio_status.rs", "let (data, keep) = map(take_bits(1u8), u8_to_bool)(data)?;", "let (data, keep) = map(nom::bits::complete::bool, |b: bool| !b)(data)?;", ["C16"])
+n("n-c03-zip-step-by", S + "mod.rs", ["    let mut offset = 0;\n    for byte in data {", "        offset += 6;\n"], ["    for (byte, offset) in data.iter().zip((0usize..).step_by(6)) {", ""], ["C03", "C01", "C18"])
+m("c03-zip-step-by-5", S + "mod.rs", ["    let mut offset = 0;\n    for byte in data {", "        offset += 6;\n"], ["    for (byte, offset) in data.iter().zip((0usize..).step_by(5)) {", ""], ["C03"])
+n("n-c10-rot-from-be-bytes", S + "navigation.rs", "match data as i8 {", "match i8::from_be_bytes([data]) {", ["C10", "C04", "C01"])
 m("c12-reverse-54-55", S + "types.rs", "AntiPollutionEquipment => 54,", "AntiPollutionEquipment => 55,", ["C12"])
 m("c12-epfd-15", S + "types.rs", "            15 => None,\n            _ => Some(Self::Unknown(data)),", "            _ => Some(Self::Unknown(data)),", ["C12"])
 m("c12-navaid-swap", S + "aid_to_navigation_report.rs", "9 => Some(Self::BeaconCardinalN),\n            10 => Some(Self::BeaconCardinalE),", "9 => Some(Self::BeaconCardinalE),\n            10 => Some(Self::BeaconCardinalN),", ["C12"])
